@@ -1063,3 +1063,91 @@ def gen_program(rng):
         else:
             out.append(rng.choice(["/* top #{$s} */", "/*! keep é */", "@foo bar;", "@layer a, b;"]))
     return "\n".join(out) + "\n"
+
+
+# ---------------------------------------------------------------------------------------------
+# raw declaration values with nested brackets (custom properties, expression()): matched and
+# DELIBERATELY mismatched closers
+# ---------------------------------------------------------------------------------------------
+
+_OPEN = "([{"
+_CLOSE = {"(": ")", "[": "]", "{": "}"}
+_BR_FILL = ["a", "b c", "1px", "x: y", "a, b", "é", "--k", "0"]
+# text in which brackets must NOT count: strings, comments, escapes
+_BR_NOISE = ['"}"', "'('", '"[{("', "/* ) */", "/* { */", "/* ] } */", "\\}", "\\(", "\\]", '"\\"}"', "'\\')'", "/*(*/"]
+
+
+def _bracket_body(rng, depth, openers, noise):
+    """text with properly nested brackets; `openers` collects (position-independent) the opener kinds used"""
+    parts = []
+    for _ in range(rng.choice([1, 1, 2])):
+        r = rng.random()
+        if depth > 0 and r < 0.6:
+            o = rng.choice(_OPEN)
+            openers.append(o)
+            parts.append(o + _bracket_body(rng, depth - 1, openers, noise) + _CLOSE[o])
+        elif noise and r < 0.8:
+            parts.append(rng.choice(_BR_NOISE))
+        else:
+            parts.append(rng.choice(_BR_FILL))
+    return " ".join(parts)
+
+
+def bracket_value(rng, depth, noise, mismatch):
+    """(text, matched?)  With `mismatch`, exactly one closer of the nest is replaced by a closer of another kind."""
+    o = rng.choice(_OPEN)
+    inner = _bracket_body(rng, depth - 1, [], noise)
+    text = o + inner + _CLOSE[o]
+    if not mismatch:
+        return text, True
+    # positions of real closers (outside strings / comments / escapes)
+    pos, i, n = [], 0, len(text)
+    while i < n:
+        ch = text[i]
+        if ch in "\"'":
+            j = i + 1
+            while j < n and text[j] != ch:
+                j += 2 if text[j] == "\\" else 1
+            i = j + 1
+            continue
+        if text.startswith("/*", i):
+            i = text.index("*/", i) + 2
+            continue
+        if ch == "\\":
+            i += 2
+            continue
+        if ch in ")]}":
+            pos.append(i)
+        i += 1
+    k = rng.choice(pos)
+    wrong = rng.choice([c for c in ")]}" if c != text[k]])
+    return text[:k] + wrong + text[k + 1:], False
+
+
+def gen_bracket_probe(rng, idx=None):
+    """A tiny stylesheet with one raw-value declaration.  The first 27+ probes (idx given) enumerate every
+    opener x closer pair at depth 1..3; the rest are random."""
+    if idx is not None and idx < 27:
+        o, c, d = _OPEN[idx % 3], ")]}"[(idx // 3) % 3], idx // 9 + 1
+        wrap_o, wrap_c = "(" * (d - 1), ")" * (d - 1)
+        val = wrap_o + o + "b" + c + wrap_c
+        matched = _CLOSE[o] == c
+        noise = False
+    else:
+        d = rng.choice([1, 1, 2, 2, 3])
+        noise = rng.random() < 0.5
+        val, matched = bracket_value(rng, d, noise, rng.random() < 0.5)
+    ctx = rng.choice(["custom", "custom", "custom-last", "custom-nosemi", "expression", "custom-media", "custom-compact"])
+    if ctx == "custom":
+        src = "a { --x: %s; c: d }\nz { y: w }\n" % val
+    elif ctx == "custom-last":
+        src = "a { c: d; --x: %s; }\nz { y: w }\n" % val
+    elif ctx == "custom-nosemi":
+        src = "a { c: d; --x: %s }\nz { y: w }\n" % val
+    elif ctx == "custom-compact":
+        src = "a{--x:%s;c:d}z{y:w}\n" % val
+    elif ctx == "custom-media":
+        src = "@media screen { a { --x: %s; c: d } }\nz { y: w }\n" % val
+    else:
+        src = "a { c: expression(%s); e: f }\nz { y: w }\n" % val
+    return {"src": src, "matched": matched, "ctx": ctx, "value": val, "depth": d, "noise": noise}
